@@ -77,11 +77,12 @@ let locate (conns : frame list list) (res : emitrec list) : string =
   conn_loop 1
 
 let verdict (out : string) : string =
-  match split_on_string " ; " out with
-  | [ head; w; r ] -> (
-    let go_verdict = match split_ws head with v :: _ -> v | [] -> "empty" in
-    if go_verdict <> "ok" then go_verdict
-    else
+  let parts = split_on_string " ; " out in
+  let go_verdict = match split_ws (List.hd parts) with v :: _ -> v | [] -> "empty-output" in
+  if go_verdict <> "ok" then String.trim (List.hd parts)
+  else
+    match parts with
+    | [ _; w; r ] -> (
       try
         let conns = parse_wires (List.tl (split_ws w)) in
         let res = parse_results (List.tl (split_ws r)) in
@@ -91,7 +92,7 @@ let verdict (out : string) : string =
         else if not (ids_inc None res) then "bad duplicate-id"
         else "bad ?"
       with Malformed k -> Printf.sprintf "bad malformed-frame conn=%d" k)
-  | _ -> if String.length out >= 7 && String.sub out 0 7 = "GOPANIC" then out else "bad unparsable-output"
+    | _ -> "bad unparsable-output"
 
 let () =
   let total = ref 0 and bad = ref 0 in
